@@ -96,6 +96,7 @@ var sessFamilies = map[string]SessFamily{
 	"genaddr":     {"genaddr", "MC_GenAddr", []string{"C11"}, false},
 	"boundary":    {"boundary", "MC_Boundary", []string{"C19", "C04", "nodrift"}, false},
 	"custom":      {"custom", "MC_Custom", []string{"C17"}, false},
+	"customplan":  {"customplan", "MC_CustomPlan", []string{"C17"}, false},
 	"custombad":   {"custombad", "MC_CustomBad", []string{"C17"}, false},
 	"custombadto": {"custombadto", "MC_CustomBadTo", []string{"C17"}, false},
 	// the same scripts over seeded random descriptors (VERIF_SEED)
